@@ -26,6 +26,7 @@ type Leaf struct {
 	P     Path
 	V     string   // scalar, given as string (converted by the server to the YANG type)
 	LL    []string // leaf-list elements (if non-nil)
+	LLU   []uint64 // leaf-list elements given as typed unsigned integers (if non-nil)
 	Empty bool     // presence container / empty leaf
 	TV    *sdcpb.TypedValue
 	Canon string // expected canonical value if it differs from V (e.g. explicit TV)
@@ -38,6 +39,12 @@ func (l Leaf) Value() *sdcpb.TypedValue {
 		return l.TV
 	case l.Empty:
 		return &sdcpb.TypedValue{Value: &sdcpb.TypedValue_EmptyVal{EmptyVal: &emptypb.Empty{}}}
+	case l.LLU != nil:
+		arr := &sdcpb.ScalarArray{}
+		for _, e := range l.LLU {
+			arr.Element = append(arr.Element, &sdcpb.TypedValue{Value: &sdcpb.TypedValue_UintVal{UintVal: e}})
+		}
+		return &sdcpb.TypedValue{Value: &sdcpb.TypedValue_LeaflistVal{LeaflistVal: arr}}
 	case l.LL != nil:
 		arr := &sdcpb.ScalarArray{}
 		for _, e := range l.LL {
@@ -55,6 +62,12 @@ func (l Leaf) CanonValue() string {
 		return l.Canon
 	case l.Empty:
 		return "<empty>"
+	case l.LLU != nil:
+		els := make([]string, 0, len(l.LLU))
+		for _, e := range l.LLU {
+			els = append(els, fmt.Sprintf("%d", e))
+		}
+		return LL(els...)
 	case l.LL != nil:
 		return LL(l.LL...)
 	}
@@ -148,6 +161,7 @@ type Outcome struct {
 	DevCalls   int // Set calls the device saw during this op (incl. confirm/cancel)
 	ModifyCnt  int // cache.Modify calls during the TransactionSet itself
 	HasIntentErrors bool
+	ExpireStuck bool // End=="expire": the transaction slot was still occupied 30 s after a 1 ms timeout
 }
 
 // Rejected reports whether the transaction was not applied.
@@ -375,6 +389,9 @@ func (w *World) Apply(op Op) (out *Outcome) {
 	if to == 0 {
 		to = time.Hour
 	}
+	if op.End == "expire" {
+		to = time.Millisecond
+	}
 	modBefore := w.Log.Count("cache.Modify")
 	out.Rsp, out.Err = w.DS.TransactionSet(ctx, out.TxID, tis, rep, to, op.DryRun)
 	out.ModifyCnt = w.Log.Count("cache.Modify") - modBefore
@@ -388,6 +405,23 @@ func (w *World) Apply(op Op) (out *Outcome) {
 		out.EndErr = w.DS.TransactionConfirm(ctx, out.TxID)
 	case "cancel":
 		out.EndErr = w.DS.TransactionCancel(ctx, out.TxID)
+	case "expire":
+		// the rollback timer (1 ms) fires in its own goroutine; wait until the open-transaction slot is
+		// released. This is a watchdog, not an oracle: a slot that never clears is reported as such.
+		if out.Err == nil && !out.HasIntentErrors && !op.DryRun {
+			dl := time.Now().Add(30 * time.Second)
+			for {
+				id, _ := w.DS.VerifOpenTransaction()
+				if id == "" {
+					break
+				}
+				if time.Now().After(dl) {
+					out.ExpireStuck = true
+					break
+				}
+				time.Sleep(100 * time.Microsecond)
+			}
+		}
 	}
 	return out
 }
